@@ -264,7 +264,13 @@ def print_utf8(ctx, lexpr):
 
     covered = {}
     bad = {}
+    # closures last: one that the evaluation of another entry point has called with the values it really gets
+    # (a helper invoking its closure parameter) is not evaluated again with arguments ranging over their whole type
+    entries.sort(key=lambda f: f.kind == "closure")
+    entered = set()
     for f in entries:
+        if f.kind == "closure" and f.path in entered:
+            continue
         argsets = [dict()]
         for i in range(1, f.arg_count + 1):
             vals = sym_for(f.local_ty(i))
@@ -287,6 +293,8 @@ def print_utf8(ctx, lexpr):
                 for ev in p.events:
                     if ev[0] == "enter":
                         stack.append((ev[1], ev[2], ev[3]))
+                        if "{closure" in ev[1]:
+                            entered.add(ev[1])
                         continue
                     if ev[0] == "leave":
                         if stack and stack[-1][0] == ev[1]:
@@ -443,6 +451,29 @@ def _is_scratch(fn, defs, op):
     return False
 
 
+def _pushed_values(fn, t, crate):
+    """Values the push at terminator `t` of `fn` receives when `fn` is evaluated with its first read delivering
+    each byte value (and end of input); None if the site is not reached before a second read or a value is unknown."""
+    site_line = t.get("line")
+    vals = set()
+    seen = False
+    for d in list(range(256)) + [None]:
+        S = lex.make_sim([crate], d, light=True)
+        try:
+            paths = S.run(fn)
+        except sim.Limit:
+            return None
+        for p in paths:
+            for ev in p.events:
+                if ev[0] == "call" and ev[3] == fn.path and ev[5] == site_line and any(n.endswith("::push") for n in ev[1]):
+                    seen = True
+                    v = ev[6][1] if len(ev[6]) > 1 else None
+                    if not isinstance(v, int):
+                        return None
+                    vals.add(v)
+    return vals if seen else None
+
+
 def classify_scratch_write(fn, defs, t, crate):
     p = t["callee"].get("path", "")
     m = p.rsplit("::", 1)[-1]
@@ -461,6 +492,12 @@ def classify_scratch_write(fn, defs, t, crate):
                 bs = crate.static_bytes(ds[0][2]["op"]["static"])
                 if bs is not None and len(bs) > 0 and all(0 <= x < 0x80 for x in bs):
                     return "ascii-const", "push of an entry of the all-ASCII table %s" % ds[0][2]["op"]["static"]
+        # a byte chosen by a match on the byte just read (`let unescaped = match ch { b'n' => b'\n', .. }`): the
+        # function is evaluated for every value of that byte; every value this push can receive must be ASCII
+        vals = _pushed_values(fn, t, crate)
+        if vals is not None and vals and all(isinstance(x, int) and 0 <= x < 0x80 for x in vals):
+            return "ascii-const", "push of one of the ASCII bytes %s (evaluated for all 256 values of the byte read)" % \
+                lex.fmt_bytes(sorted(vals))
         return "RAW", "push of a non-constant byte"
     if m in ("extend_from_slice", "extend"):
         o = common.origin(fn, defs, a)
